@@ -399,13 +399,20 @@ fn entry_via_readdirplus(inst: &Inst, ino: u64, name: char) -> Result<Option<sta
     let h = h.unwrap_or(0);
     let mut found: Option<stat64> = None;
     let mut off = 0u64;
+    // every delivered entry carries one lookup reference, which the client gives back with FORGET
+    // (as the kernel does when it drops the dentry); the reply buffer holds exactly two entries,
+    // so most replies end because the buffer is full
+    let mut delivered: Vec<u64> = Vec::new();
     loop {
         let mut got = 0;
-        let r = inst.fs.readdirplus(&ctx, ino, h, 4096, off, &mut |d: DirEntry, e: Entry| {
+        let r = inst.fs.readdirplus(&ctx, ino, h, 306, off, &mut |d: DirEntry, e: Entry| {
             got += 1;
             off = d.offset;
             if d.name == name.to_string().as_bytes() {
                 found = Some(e.attr);
+            }
+            if e.inode != 0 && d.name != b"." && d.name != b".." {
+                delivered.push(e.inode);
             }
             Ok(152 + d.name.len())
         });
@@ -418,6 +425,9 @@ fn entry_via_readdirplus(inst: &Inst, ino: u64, name: char) -> Result<Option<sta
         }
     }
     inst.fs.releasedir(&ctx, ino, 0, h).map_err(|e| errno(&e))?;
+    for i in delivered {
+        inst.fs.forget(&ctx, i, 1);
+    }
     Ok(found)
 }
 
